@@ -9,7 +9,10 @@ questions the model asks (raw signature verification, "do these fields make a ke
 answered with the real primitives (PyCA called directly for raw verification) and fed back to the driver.
 Oracle: the property evaluated on the real code only: sign/verify for every key type x algorithm, every
 single-byte edit of signature blobs, certificates and SSHSIG blobs, validity windows on a patched clock,
-principals, critical options, allowed-signers variations, ssh-keygen cross-checks (thorough).
+principals, critical options, allowed-signers variations, ssh-keygen cross-checks (thorough); plus the cases of
+props/_c16_audit.py (audit of 2026-09-26): certificates whose subject key fields make no key, host certificates as
+SSHSIG signers, malformed and re-cased allowed-signers options, security-key (sk / webauthn) signature blobs made
+with a software key as the authenticator.
 """
 
 from __future__ import annotations
@@ -27,7 +30,7 @@ import asyncssh
 from asyncssh.packet import String, UInt32, UInt64, MPInt, SSHPacket
 
 from vlib import (Ctx, CorrResult, OracleResult, Failure, Disagreement, Hist, hx, unhx)
-from props import _c16_translate
+from props import _c16_translate, _c16_audit
 
 pk = importlib.import_module('asyncssh.public_key')
 sshsig = importlib.import_module('asyncssh.sshsig')
@@ -46,14 +49,24 @@ MANIFEST = {
             'precondition with a witness that it cannot be dropped (extension_decoding_faithful, '
             'extension_decoding_unfaithful_witness); SSHSIG signed data is an injective encoding and validation needs '
             'an authorising allowed-signers entry (sshsig_signed_data_injective, sshsig_validate_sound, '
-            'sshsig_binding). The model is tied to the code by a differential run on real keys, certificates, '
+            'sshsig_binding); a certificate that authorises an SSHSIG has exactly the type validate_sshsig asks for, '
+            'read from the source (sshsig_cert_signer_is_user_certificate, sshsig_cert_type_gen_status, witness '
+            'sshsig_host_cert_prefix_witness for CERT_TYPE_ANY); allowed-signers option names are stored lower-case '
+            'and flag-then-value / bare value options raise, with the switches probed on the live parser '
+            '(addOption_stores_lower, addOption_flag_then_value, addOption_bare_value_opt, option_case_gen_status, '
+            'option_strict_gen_status, witnesses addOption_prefix_witness, option_case_prefix_witness). The model is tied to the code by a differential run on real keys, certificates, '
             'signatures and mutated blobs, and the property is evaluated directly on the real code (exhaustive '
             'single-byte edits, clock at the window bounds, ssh-keygen cross-checks).',
     'note': 'unforgeability is the ideal-signature hypothesis (explicit in each theorem); RSA algorithm-name aliases '
             'are a known finding (F17); the non-consumed value of unknown extensions (F9) was fixed upstream of this '
             'check (c6ed201) and its oracle case is kept; ECDSA (r, n-s) '
             'malleability and non-minimal mpints are properties of the primitive/encoding outside the hypothesis; '
-            'security-key signature formats, X.509 and the PEM armour of SSHSIG are outside the model',
+            'security-key signature formats (sk-ecdsa, sk-ed25519, webauthn-sk-ecdsa: blob shape .unsupported in '
+            'Gen/C16.lean, so the model answers False to every sk signature and the verify_* theorems say nothing '
+            'about sk keys: they are covered by the oracle only, with a software key as the authenticator; the '
+            'unbound origin/extensions fields of webauthn blobs are recorded finding A-C16-2), X.509 and the PEM '
+            'armour of SSHSIG are outside the model; unknown allowed-signers option names are ignored by the code '
+            'and by the model (recorded finding A-C16-1); str.lower() of option names is modelled for A-Z only',
     'technique': 'Lean 4 proof (parser = inverse of encoder, decision tables, injectivity) over a model with symbolic '
                  'signatures + oracle-answered differential correspondence + exhaustive byte-edit oracle',
 }
@@ -71,6 +84,7 @@ ASSUMPTIONS = [
     'time.time() is a non-negative rational',
     'string fields are shorter than 2^32 bytes',
     'text handed to the allowed-signers loader is a str (decoded by the caller)',
+    'allowed-signers option names contain no cased non-ASCII letters (str.lower modelled on A-Z)',
 ]
 
 
@@ -502,7 +516,20 @@ def odd_cert_blobs(rng: Any, ca: Any, subj: Any) -> List[Tuple[str, bytes]]:
     mk('serial-max', serial=2 ** 64 - 1)
     for sa in ca.sig_algorithms[:3]:
         mk('sigalg-' + sa.decode(), sig_alg=sa)
+    # audit finding 2: a valid CA signature over subject key fields that make no key
+    for label, raw in _c16_audit.bad_subjects(_self(), rng, 2):
+        try:
+            out.append(('subject-' + label.replace(' ', '_').replace('-', '_'),
+                        build_cert(ca, raw, cert_alg_for(raw, rng), ctype=1, key_id=b'id', principals=princ, after=0,
+                                   before=2 ** 64 - 1, options=b'', exts=ext_pty)))
+        except Exception:
+            pass
     return out
+
+
+def _self() -> Any:
+    import sys
+    return sys.modules[__name__]
 
 
 def mutate_blob(rng: Any, blob: bytes) -> bytes:
@@ -542,7 +569,13 @@ SIGNER_OPTION_FORMS = ['', 'cert-authority', 'valid-after=19700101001640Z', 'val
                        'namespaces=file\\', 'valid-after=5,valid-after=junk', 'valid-after=junk,valid-after=5',
                        'namespaces=file,namespaces=git', 'cert-authority=yes', 'valid-before=1500,cert-authority',
                        'namespaces="file",valid-before=19700101003320Z', 'namespaces="file",valid-after=19700101001640Z',
-                       'cert-authority,namespaces="file",valid-before=19700101003320Z']
+                       'cert-authority,namespaces="file",valid-before=19700101003320Z',
+                       # audit findings 1 and 3: re-cased keywords, flag-then-value, bare value options
+                       'Namespaces="git"', 'NAMESPACES=file', 'Valid-Before=19700101003320Z', 'VALID-AFTER=1000',
+                       'Cert-Authority', 'CERT-AUTHORITY,Namespaces="file"', 'foo,foo=1', 'Foo,foo=1', 'foo,Foo=1',
+                       'cert-authority,cert-authority=x', 'namespaces,namespaces="file"',
+                       'valid-after,valid-after=1000', 'valid-before', 'foo=1,foo', 'namespaces="file",namespaces',
+                       'Valid-Before=junk', 'nameſpaces=file']
 
 
 def gen_signers_text(rng: Any, keys_: List[Any]) -> str:
@@ -668,7 +701,8 @@ def correspondence(ctx: Ctx) -> CorrResult:
             ca = key(rng.choice(algs))
             a, b = rng.choice([(0, 2 ** 64 - 1), (1000, 2000), (1500, 1501)])
             cp = rng.choice([[], ['alice'], ['alice', 'bob'], ['carol']])
-            cert = ca.generate_user_certificate(k, 'id', principals=cp, valid_after=a, valid_before=b)
+            mkcert = ca.generate_host_certificate if rng.random() < 0.3 else ca.generate_user_certificate
+            cert = mkcert(k, 'id', principals=cp, valid_after=a, valid_before=b)
             signer = (k, cert)
             cinfo = {'ca': ca, 'cert': cert}
         with mock.patch.object(pk.SSHLocalKeyPair, 'sign', spy):
@@ -902,9 +936,14 @@ def correspondence(ctx: Ctx) -> CorrResult:
             label, blob, ask = meta
             st, c = impl_cert(blob)
             hist.hit(f'cert:{label.split("-")[0]}:{st}')
-            if st.startswith('exc:'):
-                hist.hit('cert-impl-' + st)
             model_ok = mod.startswith('ok ')
+            if st.startswith('exc:'):
+                # the model's certificate decoder fails with KeyImportError only (`certConstruct = none`)
+                hist.hit('cert-impl-' + st)
+                dis.append(Disagreement(case={'op': 'cert-decode', 'label': label, 'blob': blob.hex(), 'ask': ask},
+                                        model='ok' if model_ok else 'reject (KeyImportError)', impl=st,
+                                        name='correspondence:cert-decode-exception'))
+                continue
             if model_ok != (st == 'ok'):
                 dis.append(Disagreement(case={'op': 'cert-decode', 'label': label, 'blob': blob.hex(), 'ask': ask},
                                         model=mod, impl=st, name='correspondence:cert-accept'))
@@ -1268,11 +1307,13 @@ def oracle(ctx: Ctx) -> OracleResult:
 
     # (3) SSHSIG ------------------------------------------------------------------------------------------------------
     fails += _oracle_sshsig(ctx, rng, hist, res, algs, thorough, deep)
+    fails += _c16_audit.oracle_audit(_self(), ctx, ctx.subrng('oracle-audit'), hist, res, algs, deep)
     if deep:
         fails += _oracle_ssh_keygen(ctx, rng, hist, res, algs)
 
     # findings that exist on the unchanged tree go last, so a new failure is the one written to the replay
-    baseline = ('verify-accepts-relabelled-rsa-alias', 'cert-unknown-extension-value-parsed-as-name')
+    baseline = ('verify-accepts-relabelled-rsa-alias', 'cert-unknown-extension-value-parsed-as-name') + \
+        _c16_audit.RECORDED
     res.failures.sort(key=lambda f: f.signature in baseline)
     res.histogram = dict(hist)
     res.samples = [{'keys': algs}]
@@ -1281,7 +1322,11 @@ def oracle(ctx: Ctx) -> OracleResult:
                 'certificates per CA type x signature algorithm: every single-byte edit, clock at/around both window '
                 'bounds, principals, types, unknown critical options, extension decoding; SSHSIG per key type x hash: '
                 'message/namespace/principal/signers/clock variations, every single-byte edit of the blob, '
-                'certificate signers; ssh-keygen -Y/-L cross-checks (thorough)')
+                'certificate signers; ssh-keygen -Y/-L cross-checks (thorough); audit cases: CA-signed certificates '
+                'with unusable subject key fields (fixed + random RSA e/n) through decode_ssh_certificate and '
+                'validate_sshsig, user/host certificates x principals x clock as SSHSIG signers, malformed and '
+                'random option lists, re-cased and unknown option keywords, sk-ecdsa / sk-ed25519 / webauthn '
+                'signature blobs with every single-byte edit')
     return res
 
 
@@ -1573,6 +1618,10 @@ def replay(ctx: Ctx, rep: Dict[str, Any]) -> List[Failure]:
         nowv: Any = int(now) if now.denominator == 1 else float(now)
         got = impl_validate(c, r['want'], r['principal'], nowv)
         return [Failure('cert-validate-decision-wrong', got, r)] if (got == 'ok') != r['expect_ok'] else []
+    if kind == 'audit':
+        res = OracleResult()
+        return _c16_audit.oracle_audit(_self(), ctx, ctx.subrng('oracle-audit'), Hist(), res, available_algs(),
+                                       ctx.tier == 'thorough', only=rep.get('signature'))
     # inputs that depend on per-run keys (signatures, SSHSIG blobs, interop): re-create the situation by running
     # the oracle again and keep the failures with the recorded signature
     want = rep.get('signature')
